@@ -558,6 +558,9 @@ def _case(draw):
         "earlier": earlier,
         "probe_lines": sorted(set(draw(st.lists(st.integers(0, 1024), max_size=3)))),
         "tools": draw(_weighted(("default", 5), ("shims", 2), ("none", 2))),
+        # 0: prepare_docs for the corpus directly; 1-4: through DefaultTrackPreparator.on_prepare_track for a challenge whose (unnamed,
+        # inline) bulk operations name the corpora they read - ours alone, after / beside / before one on another corpus
+        "via_challenge": draw(_weighted((0, 4), (1, 1), (2, 2), (3, 1), (4, 1))),
     }
     if big and off[0] in ("stale", "truncated") and draw(st.integers(0, 2)) == 0:
         # template: a leftover offset table next to a document file that this run has to produce again from a good local archive
@@ -632,12 +635,42 @@ class _Env:
         )
 
     def prepare(self):
-        corpus = track.DocumentCorpus(CORPUS_NAME, documents=[self.document_set()])
-        t = track.Track(name=TRACK_NAME, corpora=[corpus])
-        prep = loader.DocumentSetPreparator(TRACK_NAME, loader.Downloader(self.case["offline"], self.case["test_mode"]), self.decompressor)
+        docs = self.document_set()
+        corpus = track.DocumentCorpus(CORPUS_NAME, documents=[docs])
+        via = self.case.get("via_challenge")
+        if not via:
+            t = track.Track(name=TRACK_NAME, corpora=[corpus])
+            prep = loader.DocumentSetPreparator(TRACK_NAME, loader.Downloader(self.case["offline"], self.case["test_mode"]), self.decompressor)
+            with warnings.catch_warnings():
+                warnings.simplefilter("ignore")
+                loader.DefaultTrackPreparator.prepare_docs(self.cfg, t, corpus, prep)
+            return
+        # The way a race does it: which corpora are prepared follows from the bulk operations of the selected challenge (loader.used_corpora).
+        # A second, tiny corpus is complete on disk already; the challenge's bulk operations are written inline without a name (so both
+        # are called "bulk", the operation type) and each names the corpus it reads.
+        if not docs.includes_action_and_meta_data:
+            docs.target_index = "idx"
+        other_dir = os.path.join(self.cache_root, "other")
+        os.makedirs(other_dir, exist_ok=True)
+        other_file = os.path.join(other_dir, "other.json")
+        if not os.path.exists(other_file):
+            disk.write_file(other_file, b'{"a": 1}\n{"a": 2}\n', disk.T_DOC)
+        other = track.DocumentCorpus("other", documents=[track.Documents(
+            source_format=track.Documents.SOURCE_FORMAT_BULK, document_file="other.json", number_of_documents=2, uncompressed_size_in_bytes=18, target_index="idx")])
+
+        def bulk(name, corpus_name):
+            op = track.Operation("bulk", track.OperationType.Bulk.to_hyphenated_string(), params={"bulk-size": 100, "corpora": [corpus_name]})
+            return track.Task(name, op)
+
+        ours, theirs = bulk("index-ours", CORPUS_NAME), bulk("index-other", "other")
+        schedule = {1: [ours], 2: [theirs, ours], 3: [track.Parallel([theirs, ours])], 4: [ours, theirs]}[via]
+        t = track.Track(name=TRACK_NAME, corpora=[other, corpus], challenges=[track.Challenge("c", default=True, schedule=schedule)])
+        tp = loader.DefaultTrackPreparator()
+        tp.cfg, tp.downloader, tp.decompressor = self.cfg, loader.Downloader(self.case["offline"], self.case["test_mode"]), self.decompressor
         with warnings.catch_warnings():
             warnings.simplefilter("ignore")
-            loader.DefaultTrackPreparator.prepare_docs(self.cfg, t, corpus, prep)
+            for fn, params in tp.on_prepare_track(t, self.cache_root):
+                fn(**params)
 
     def write_initial_state(self):
         case = self.case
@@ -829,6 +862,8 @@ def run_case(case, obs):
             obs.cls(f"offset-age:{case['disk']['offset_age']}")
         if case.get("template"):
             obs.cls(f"template:{case['template']}")
+        if case.get("via_challenge"):
+            obs.cls("through-on_prepare_track")
         for k in ("doc", "archive"):
             obs.cls(f"initial-{k}:{case['disk'][k][0]}")
         if case["disk"]["tmp"] is not None:
